@@ -75,6 +75,8 @@ type enchEvent struct {
 	V     string   `json:"v,omitempty"`
 	Modes []string `json:"modes,omitempty"` // op "Init" (first event of a behaviour): the loggers Reset creates
 	Named []bool   `json:"named,omitempty"`
+	FG    string   `json:"fg,omitempty"` // op "SetColors": class of the foreground ("none" | "fg") ...
+	BG    string   `json:"bg,omitempty"` // ... and of the background ("none" | "bg" | "attr")
 	S     int      `json:"s,omitempty"` // salt of an Emit: seeds the concretisation, so that a record keeps its bytes when the history around it is shrunk
 }
 
@@ -108,6 +110,7 @@ type enchState struct {
 	reg     map[int]*enchReg // abstract custom severity -> registration of this behaviour
 	width   int
 	counter int
+	colored map[int]bool // built-in severities whose colours a SetColors event changed (put back by reset)
 	out     *traceOut
 	det     *traceOut
 	flags   slog.Flags
@@ -204,6 +207,10 @@ func (s *enchState) reset(b int, init *enchEvent) {
 	is.SetDebugMode(false)
 	is.SetTraceMode(false)
 	s.width = 3
+	for sev := range s.colored { // the colour table is process-wide: factory settings for the next behaviour
+		encRestoreColours(sev)
+	}
+	s.colored = map[int]bool{}
 	s.reg = map[int]*enchReg{}
 	s.live = make([]*enchLive, len(s.sc.Slots))
 	modes := make([][2]bool, len(s.sc.Slots))
@@ -677,6 +684,15 @@ func enchMain(args []string) int {
 			case "SetMinW":
 				slog.SetMessageMinimalWidth(e.M)
 				s.emitLine(map[string]any{"op": "SetMinW", "m": e.M}, nil)
+			case "SetColors":
+				sev := s.concrete(e.C)
+				if e.C < 100 {
+					s.colored[sev] = true
+				}
+				// the concrete codes are a function of the event (stable under shrinking)
+				rr := rand.New(rand.NewSource(int64(sc.Seed)*1000003 + int64(e.C)*7919 + int64(len(e.FG))*31 + int64(len(e.BG))*17 + int64(ei)))
+				fg, bg := encSetColours(sev, encLC{Set: true, Fg: e.FG, Bg: e.BG}, rr)
+				s.emitLine(map[string]any{"op": "SetColors", "c": e.C, "fg": e.FG, "bg": e.BG}, map[string]any{"level": sev, "codes": []int{fg, bg}})
 			default:
 				panic("unknown event " + e.Op)
 			}
